@@ -545,3 +545,105 @@ def facts_at_end(compound):
         return path_facts(dummy)
     finally:
         compound['inner'].pop()
+
+
+# --------------------------------------------------------------------------
+# "may execute after" on the structured statement tree
+
+def may_follow(a, b):
+    """True unless the structure of the function shows that node b can never execute after node a
+    in the same activation: a and b sit in the two arms of one if/conditional, or the statements
+    between them cannot fall through (return/throw/break/continue)."""
+    if a is b:
+        return any(x.get('kind') in ('ForStmt', 'WhileStmt', 'DoStmt', 'CXXForRangeStmt') for x in ancestors(a))
+    aa = [a] + list(ancestors(a))
+    ba = [b] + list(ancestors(b))
+    ids_b = {id(x): i for i, x in enumerate(ba)}
+    lca = None
+    for i, x in enumerate(aa):
+        if id(x) in ids_b:
+            lca, ia, ib = x, i, ids_b[id(x)]
+            break
+    if lca is None:
+        return True
+    if any(x.get('kind') in ('ForStmt', 'WhileStmt', 'DoStmt', 'CXXForRangeStmt') for x in [lca] + list(ancestors(lca))):
+        return True
+    if ia == 0 or ib == 0:
+        return True   # one contains the other
+    ca, cb = aa[ia - 1], ba[ib - 1]
+    k = lca.get('kind')
+    if k == 'IfStmt':
+        cond, then, els = if_parts(lca)
+        if (ca is then and cb is els) or (ca is els and cb is then):
+            return False
+        return ca is cond
+    if k == 'ConditionalOperator':
+        ks = kids(lca)
+        if len(ks) == 3 and ((ca is ks[1] and cb is ks[2]) or (ca is ks[2] and cb is ks[1])):
+            return False
+        return True
+    if k == 'CompoundStmt':
+        ks = list(kids(lca))
+        pa = next((i for i, x in enumerate(ks) if x is ca), None)
+        pb = next((i for i, x in enumerate(ks) if x is cb), None)
+        if pa is None or pb is None:
+            return True
+        if pa > pb:
+            return False
+        # every statement from ca up to (not including) cb must be able to fall through;
+        # for ca itself: the part after `a` inside it
+        if not _falls_after(ca, a):
+            return False
+        return all(falls_through(s) for s in ks[pa + 1:pb])
+    return True
+
+
+def _falls_after(stmt, a):
+    """can control reach the end of stmt after executing node a (a inside stmt)?"""
+    if stmt is a:
+        return falls_through(stmt) if stmt.get('kind', '').endswith('Stmt') else True
+    if stmt.get('kind') in ('ReturnStmt', 'CXXThrowExpr', 'BreakStmt', 'ContinueStmt'):
+        return False
+    chain = []
+    p = a
+    while p is not None and p is not stmt:
+        chain.append(p)
+        p = p.get('_p')
+    # walk outwards: at each CompoundStmt level the following siblings must fall through; an
+    # if-arm falls out of the IfStmt; a return/throw ancestor stops
+    for i, x in enumerate(chain):
+        par = x.get('_p')
+        if par is None:
+            break
+        if par.get('kind') in ('ReturnStmt', 'CXXThrowExpr'):
+            return False
+        if par.get('kind') == 'CompoundStmt':
+            ks = list(kids(par))
+            pi = next((j for j, y in enumerate(ks) if y is x), None)
+            if pi is not None and not all(falls_through(s) for s in ks[pi + 1:]):
+                return False
+        if par is stmt:
+            break
+    return True
+
+
+def va_list_consumptions(func):
+    """{va_list variable id: [nodes that consume it]}: a va_list is consumed when it is handed to a
+    callee (v*printf family, any function taking a va_list); va_start / va_end / va_arg / the source
+    position of va_copy do not consume it as a whole."""
+    out = {}
+    body = body_of(func)
+    if body is None:
+        return out
+    for x in walk(body):
+        k = x.get('kind')
+        if k == 'CallExpr':
+            nm = call_name(x) or ''
+            if nm in ('__builtin_va_start', '__builtin_va_end', '__builtin_va_copy'):
+                continue
+            for a in call_args(x):
+                a0 = strip(a)
+                rd = ref_decl(a0) if a0 is not None and a0.get('kind') == 'DeclRefExpr' else None
+                if rd and ('va_list' in ((rd.get('type') or {}).get('qualType') or '') or '__va_list_tag' in ((rd.get('type') or {}).get('qualType') or '')):
+                    out.setdefault(rd['id'], []).append(x)
+    return out
